@@ -1673,7 +1673,10 @@ class VVec(SV):
 
     def sv_index(self, eng, st, idx, node):
         if self.part == 'nonzero-tuple':
-            return [Result(st, VVec(self.sp, self.ax, self.k, self.dense, part='nonzero'))]
+            # nonzero() of a 1-D array is a 1-tuple
+            yes, no = eng.fork(st, to_int(idx) == 0) if idx.kind in ('int', 'bool') else ([], [st])
+            return [Result(s, VVec(self.sp, self.ax, self.k, self.dense, part='nonzero')) for s in yes] + \
+                   [eng.exc(s, 'IndexError') for s in no]
         raise EngineError('indexing a vector value')
 
 
